@@ -1,7 +1,9 @@
 (* C20 round 7 — tie of ModelNewton: (1) bit-exact replay of logged UNCONSTRAINED newton runs on objectives whose
    Newton step rounds away: the hook log gives every iterate x_i and the step t_i (InSitu.T1) it was left with; the
    model's step loop must reproduce x_{i+1} from (x_i, t_i) and must say LStall exactly where the run returned
-   "line search failed"; (2) the shape guards of gaussJordan.Run on both paths. *)
+   "line search failed" (RunMin's line-search branch included: there InSitu.T1 holds the step ALREADY scaled by the
+   alpha of the line search, so x_{i+1} = x_i - T1 and the stagnation test of nstep_ls is the one of an unconstrained
+   nstep_loop pass on (x_i, T1)); (2) the shape guards of gaussJordan.Run on both paths. *)
 From Coq Require Import ZArith List Bool Floats.
 From ADV Require Import Base.Corr Base.Num C20.Model C20.ModelRetry C20.ModelNewton.
 Import ListNotations.
